@@ -401,6 +401,7 @@ public:
     /// \returns *this
     constexpr auto erase(size_type index = 0, size_type count = npos) noexcept -> basic_inplace_string&
     {
+        TETL_PRECONDITION(index <= size());
         auto safeCount = etl::min(count, size() - index);
         erase(begin() + index, begin() + index + safeCount);
         return *this;
@@ -420,7 +421,8 @@ public:
     {
         auto const start    = static_cast<size_type>(etl::distance(cbegin(), first));
         auto const distance = static_cast<size_type>(etl::distance(first, last));
-        TETL_PRECONDITION(size() > distance);
+        TETL_PRECONDITION(start <= size());
+        TETL_PRECONDITION(distance <= size() - start);
         etl::rotate(begin() + start, begin() + start + distance, end());
         unsafe_set_size(size() - distance);
         return begin() + start;
